@@ -110,6 +110,10 @@ class IfWriteHandler(AbstractWriteHandler):
             ), f"Invalid if-structure for if {m.if_id}"
 
             if v_after_if_branch is None:
+                if v_after_else_branch is None and else_ends_on_common_vtx and else_edge is not None:
+                    # The if block ended on a jump and there is no else block: when the condition does not hold the code
+                    # continues at the end label of the if, so that is where the block around us has to go on.
+                    return else_edge.target_vertex
                 return v_after_else_branch
             return v_after_if_branch
 
